@@ -184,8 +184,13 @@ def run(ctx):
     ctx.sample({"subset_by_slice": inp, "tile_shape": list(got.shape)})
     # offsets place scores: target_padding and the valid-mode arithmetic (exhaustive small)
     for m in range(1, 20):
-        ctx.agree("target_padding", {"m": m}, int(MatchingData(target=np.zeros((25,), np.float32), template=np.zeros((m,), np.float32))
-                                                 .target_padding(pad_target=True)[0]), d.call("c14.targetPadding", m=m))
+        pad_m = int(MatchingData(target=np.zeros((25,), np.float32), template=np.zeros((m,), np.float32)).target_padding(pad_target=True)[0])
+        ctx.agree("target_padding", {"m": m}, pad_m, d.call("c14.targetPadding", m=m))
+        # the margin is what makes a padded tile's scores land on the tile itself: the 'valid' extent of (box + margin) against a
+        # template of extent m, (box + margin) - m + m % 2, must be the box again, for every box
+        ctx.spec("tile margin: scores of a padded tile cover exactly the tile (offset places them back)", {"template_extent": m, "margin": pad_m},
+                 all((box + pad_m) - m + m % 2 == box for box in range(1, 40)), {"valid extent for box 10": (10 + pad_m) - m + m % 2},
+                 key="tile-margin")
 
     # ---- schedules
     methods = ["CC", "LCC", "CORR", "CAM", "MCC", "FLCSphericalMask", "FLC"]
